@@ -109,6 +109,37 @@ theorem forIn_range {σ τ} {VR : σ → τ → Prop} (r : Std.Legacy.Range) (in
   rw [Std.Legacy.Range.forIn_eq_forIn_range', Std.Legacy.Range.forIn_eq_forIn_range']
   exact forIn_list _ _ _ _ _ h0 hf
 
+/-- the same with the membership of the index -/
+theorem forIn_list' {ι σ τ} {VR : σ → τ → Prop} (l : List ι) (init : σ) (init' : τ)
+    (f : ι → σ → M (ForInStep σ)) (g : ι → τ → M (ForInStep τ)) (h0 : VR init init')
+    (hf : ∀ i, i ∈ l → ∀ b b', VR b b' → RelS A (fun x y s t =>
+        ((∃ u u', x = .yield u ∧ y = .yield u' ∧ VR u u') ∨ (∃ u u', x = .done u ∧ y = .done u' ∧ VR u u')) ∧ A s t) (f i b) (g i b')) :
+    RelS A (fun x y s t => VR x y ∧ A s t) (forIn l init f) (forIn l init' g) := by
+  induction l generalizing init init' with
+  | nil =>
+    simp only [List.forIn_nil]
+    exact RelS.pure (fun s t h => ⟨h0, h⟩)
+  | cons i r ih =>
+    rw [List.forIn_cons, List.forIn_cons]
+    refine bindV (hf i (by simp) init init' h0) ?_
+    intro x y hxy
+    rcases hxy with ⟨u, u', rfl, rfl, hu⟩ | ⟨u, u', rfl, rfl, hu⟩
+    · exact ih u u' hu (fun j hj => hf j (by simp [hj]))
+    · exact RelS.pure (fun s t h => ⟨hu, h⟩)
+
+/-- `for k := 0; k < n; k++ { … }` -/
+theorem forIn_upto {σ τ} {VR : σ → τ → Prop} (n : Nat) (init : σ) (init' : τ)
+    (f : Nat → σ → M (ForInStep σ)) (g : Nat → τ → M (ForInStep τ)) (h0 : VR init init')
+    (hf : ∀ i, i < n → ∀ b b', VR b b' → RelS A (fun x y s t =>
+        ((∃ u u', x = .yield u ∧ y = .yield u' ∧ VR u u') ∨ (∃ u u', x = .done u ∧ y = .done u' ∧ VR u u')) ∧ A s t) (f i b) (g i b')) :
+    RelS A (fun x y s t => VR x y ∧ A s t) (forIn [:n] init f) (forIn [:n] init' g) := by
+  rw [Std.Legacy.Range.forIn_eq_forIn_range', Std.Legacy.Range.forIn_eq_forIn_range']
+  refine forIn_list' _ _ _ _ _ h0 ?_
+  intro i hi
+  refine hf i ?_
+  simp [List.mem_range', Std.Legacy.Range.size] at hi
+  omega
+
 end RelS
 
 /-! ### the offset relation -/
